@@ -111,8 +111,10 @@ def run_check(prop_id, mod_name, tier, n_cases, wall_cap, level, rule, assumptio
                 else:
                     agg.clock_span[0] = min(agg.clock_span[0], r.clock_span[0])
                     agg.clock_span[1] = max(agg.clock_span[1], r.clock_span[1])
-            if r.sample is not None and len(samples) < 3:
-                samples.append(r.sample)
+            if r.sample is not None:
+                samples.append((i, r.sample))
+                samples.sort(key=lambda x: x[0])
+                del samples[3:]
             for v in r.violations:
                 violations.append((i, v))
             if time.time() - t0 > wall_cap:
@@ -187,7 +189,7 @@ def run_check(prop_id, mod_name, tier, n_cases, wall_cap, level, rule, assumptio
             "cases": done,
             "distinct_nontrivial": len(distinct),
             "rule": rule,
-            "samples": samples,
+            "samples": [dict(case=i, **smp) if isinstance(smp, dict) else smp for (i, smp) in samples],
             "runs_per_hour": int(agg.runs / max(wall, 1e-9) * 3600),
             "steps_total": agg.steps,
             "steps_max": agg.steps_max,
